@@ -60,7 +60,7 @@ CLAIMED = {
    text='Bounded symbolic execution of the real hashmap.utils/hashmap.parse code: (a) the real detect_label_type driven with SYMBOLIC label length n and '
         'key size m (all 0<=n<=m<=1023, both values of the all-equal flag) chooses the label kind of the reference node; (b) write_label/deserialize_hml '
         'on symbolic label bits for enumerated (n, m) emit/accept exactly the canonical label and every valid kind; (c) serialize() has the structure and '
-        'hash of the canonical Patricia tree of specs/dictspec.py for every key set of widths 1..3 (width 4 seeded/all), selected wide sets and symbolic '
+        'hash of the canonical Patricia tree of specs/dictspec.py for every key set of widths 1..3 (width 4: 120 seeded sets quick / 15 000 thorough), selected wide sets and symbolic '
         'keys; (d) trees encoded by the specification with every valid label kind per edge and every antichain of pruned sub-trees, plain and augmented '
         '(values and extras symbolic), are decoded to exactly the leaves and extras of the non-pruned part.',
    note='Trusted: z3; specs/dictspec.py (label rule written from the reference node); specs/cellspec.py; bitarray model. Trees of more than 4 leaves '
